@@ -54,6 +54,12 @@ HOURLY_PROFILES = {
     "hourly_min_hours0": {"seed": 5, "min_daily_training_hours": 0},
     "hourly_clusters": {"seed": 5, "temporal_cluster": {"n_cluster_upper": 8, "score_metric": "silhouette"}},
     "hourly_thresholds": {"seed": 5, "cvrmse_threshold": 0.05, "pnrmse_threshold": 0.05},
+    "hourly_equal_width": {"seed": 5, "temperature_bin": {"method": "equal_bin_width", "n_bins": 6, "bin_width": None, "include_edge_bins": False,
+                                                           "edge_bin_rate": None, "edge_bin_percent": None}},
+    "hourly_equal_count": {"seed": 5, "temperature_bin": {"method": "equal_sample_count", "n_bins": 6, "bin_width": None, "include_edge_bins": False,
+                                                           "edge_bin_rate": None, "edge_bin_percent": None}},
+    "hourly_no_bins": {"seed": 5, "temperature_bin": None},
+    "hourly_no_edge_bins": {"seed": 5, "temperature_bin": {"include_edge_bins": False, "edge_bin_rate": None, "edge_bin_percent": None}},
 }
 
 
